@@ -4,6 +4,7 @@ CONSTANTS
   MaxEvents = 10
   MaxPerBlock = 2
   MaxReorgs = 3
+  MaxRestarts = 1
   MaxFail = 4
   ChunkSizes = {1, 2, 3, 10}
   FinalityAfterNotices = TRUE
